@@ -148,7 +148,9 @@ impl BlockRule for BlockquoteScanner {
         let old_line_max = state.line_max;
         state.line = start_line;
         state.line_max = next_line;
+        state.level += 1;
         state.md.block.tokenize(state);
+        state.level -= 1;
         state.line_max = old_line_max;
 
         // Restore original tShift; this might not be necessary since the parser
